@@ -3290,6 +3290,10 @@ def unpickle_setwrapper(obj, attrname, items):
     wrapper = wrapper_cls(obj, attr)
     setdata = obj._vals_.get(attr)
     if setdata is None: setdata = obj._vals_[attr] = SetData()
+    new_items = set(items) - setdata
+    if new_items:
+        setdata |= new_items
+        if attr.reverse.is_collection: attr.reverse.db_reverse_add(new_items, obj)
     setdata.is_fully_loaded = True
     setdata.absent = None
     setdata.count = len(setdata)
